@@ -1163,6 +1163,17 @@ class Interp:
             a = args[0]
             if a[0] == "tuple":
                 return K(len(a[1]))
+            if a[0] == "class" and any(ast.unparse(b).split(".")[-1] in ("Enum", "IntEnum", "StrEnum", "Flag", "IntFlag") for b in a[1].node.bases):
+                # len(<Enum class>) is the number of its members: the names bound to literals in the class body (aliases of one value count once)
+                vals = []
+                for st_ in a[1].node.body:
+                    if isinstance(st_, ast.Assign) and len(st_.targets) == 1 and isinstance(st_.targets[0], ast.Name) and not st_.targets[0].id.startswith("_"):
+                        if not isinstance(st_.value, ast.Constant):
+                            vals = None
+                            break
+                        vals.append(st_.value.value)
+                if vals:
+                    return K(len(set(vals)))
             return ("app", "len", (a,))
         if name in ("min", "max"):
             if len(args) == 1 and args[0][0] == "tuple":
